@@ -2,7 +2,7 @@
 
      acquire-core-libs/src/acquire-device-hal/device/hal/driver.c    driver_open_device, driver_close_device
      acquire-core-libs/src/acquire-device-hal/device/hal/camera.c    camera_open .. camera_get_state   (all 11 exported)
-     acquire-core-libs/src/acquire-device-hal/device/hal/storage.c   storage_validate .. storage_reserve_image_shape (all 12)
+     acquire-core-libs/src/acquire-device-hal/device/hal/storage.c   storage_validate .. storage_reserve_image_shape (all 11)
 
    One Gallina function per C function, one `if` per `if`/CHECK of the C, in the same order.  No proofs in this file.
 
